@@ -15,6 +15,7 @@
 (*   AddLit    q + u2(R2{w}), SubLit   common unit, promoted common rep    *)
 (*                                (C07, C08)                               *)
 (*   MulInt    q * k              raw operator's type (C13)                *)
+(*   CmpLit    q <, ==, > u2(R2{w})   exact order (C08), state unchanged    *)
 (*   Neg       -q                                                          *)
 (* Only steps whose result is defined (no overflow at any stage the        *)
 (* single-operation specifications name) are taken, so a generated walk    *)
@@ -60,6 +61,16 @@ DoAdd(s, r2, ui, w, sign) ==
              /\ ImplicitOK(s.rep, c, "rat", k1, One) /\ ImplicitOK(r2, c, "rat", k2, One)
              /\ InRange(c, e1) /\ InRange(c, e2) /\ InRange(c, k1) /\ InRange(c, k2) /\ InRange(PlusRep(c), res),
       st |-> St(PlusRep(c), cu[1], cu[2], res)]
+\* q <=> literal: both operands go to <common unit, common rep>; the state does not change, the answer is observed
+DoCmp(s, r2, ui, w) ==
+  LET n2 == UnitsW[ui][2]  d2 == UnitsW[ui][3]
+      c == CommonType(s.rep, r2)
+      k1 == Cof1(s.n, s.d, n2, d2)  k2 == Cof2(s.n, s.d, n2, d2)
+      e1 == Mul(s.v, k1)  e2 == Mul(w, k2)
+  IN [ok |-> /\ Signed(s.rep) = Signed(r2)
+             /\ ImplicitOK(s.rep, c, "rat", k1, One) /\ ImplicitOK(r2, c, "rat", k2, One)
+             /\ InRange(c, e1) /\ InRange(c, e2) /\ InRange(c, k1) /\ InRange(c, k2),
+      ord |-> Cmp(e1, e2)]
 DoMul(s, k) == LET rr == CommonType(s.rep, "i32")  res == Mul(s.v, FromInt(k)) IN
   [ok |-> InRange(rr, res) /\ InRange(rr, s.v) /\ (Signed(rr) \/ k > 0), st |-> St(rr, s.n, s.d, res)]
 DoNeg(s) == [ok |-> InRange(Promote(s.rep), Neg(s.v)), st |-> St(Promote(s.rep), s.n, s.d, Neg(s.v))]
